@@ -132,6 +132,12 @@ def grid_history(c, kind):
     f = g.par2fun(q)
     c.holds('fun_shape_follows_the_new_grid', tuple(np.shape(f)) == (newN,), note=str(np.shape(f)))
     c.eq('roundtrip_after_grid_change', g.fun2par(f), q)
+    if kind.startswith('Step'):
+        # every node of the NEW grid receives exactly one parameter's contribution, as a freshly constructed geometry would give
+        fresh = StepExpansion(np.linspace(0, 1, newN), n_steps=g.n_steps, fun2par_projection=kind.split(':')[1])
+        c.eq('expansion_after_grid_change_is_that_of_a_fresh_geometry', f, fresh.par2fun(q))
+        h = c.vec('h', newN)
+        c.eq('projection_after_grid_change_is_that_of_a_fresh_geometry', g.fun2par(h), fresh.fun2par(h))
     P = c.vec('r', n2 * 2).reshape(n2, 2)
     c.eq('batch_roundtrip_after_grid_change', g.fun2par(g.par2fun(P)), P)
 
@@ -191,6 +197,8 @@ def jobs(tier):
         for k in (0, 2):
             J.append(Job(f'{kind}:projection_idempotent:batch={k}', lambda c, kind=kind, k=k: projection_idempotent(c, kind, k), 'Pbox', fn['Step'], maxpaths=4096))
     J.append(Job('Continuous1D:grid_history', lambda c: grid_history(c, 'Continuous1D'), 'Pbox', fn['Continuous1D']))
+    for kind in ('Step:mean:5:2', 'Step:max:6:3', 'Step:min:4:4'):
+        J.append(Job(f'{kind}:grid_history', lambda c, kind=kind: grid_history(c, kind), 'Pbox', fn['Step'], maxpaths=4096))
     for kind in ('KL:6:3', 'KL:8:4'):
         J.append(Job(f'{kind}:grid_history', lambda c, kind=kind: grid_history(c, kind), 'B', fn['KL'], rtol=1e-6, atol=1e-9))
     for N, ns in ((4, 2), (5, 2), (7, 3), (6, 6)) + (() if q else ((9, 4), (10, 3), (12, 5))):
